@@ -60,8 +60,8 @@ func init() {
 }
 
 const (
-	quickCases    = 50000
-	thoroughCases = 1000000
+	quickCases    = 10000
+	thoroughCases = 420000
 )
 
 // RunTrie builds the trie of a header (tokens after `@ Cxx`): Insert in order
@@ -334,6 +334,14 @@ func check(c core.Case, out []string) *core.Failure {
 			continue // patterns inserted since the last build: outside the property
 		}
 		all, ps = ph.All, ph.PS
+		if len(tk) == 1 && tk[0] == "dumpc" {
+			// compact dump of a big trie: compared with the pointer model; the independent
+			// part is only that the walk met no shared node and no stray fail pointer
+			if strings.Contains(out[i], "!shared") || strings.Contains(out[i], ";?") {
+				return &core.Failure{Key: "dump-structure", Desc: fmt.Sprintf("op %d dumpc: the pointer structure has a shared node or a fail pointer to no node of the trie", i)}
+			}
+			continue
+		}
 		if len(tk) == 1 && tk[0] == "dump" {
 			if key, desc := checkDump(all, out[i]); key != "" {
 				return &core.Failure{Key: key, Desc: fmt.Sprintf("op %d %q: %s", i, c.Lines[i], desc)}
@@ -439,7 +447,7 @@ func classify(c core.Case, out []string) []string {
 	if len(ps.P) < len(all) {
 		ls = append(ls, "pattern:duplicate-or-empty")
 	}
-	if g, w, u, _ := QueueGrowth(all); g > 0 {
+	if g, w, u, _ := queueGrowthSmall(all); g > 0 {
 		ls = append(ls, "queue:grew")
 		if w >= 2 {
 			ls = append(ls, "queue:grew-wrapped-twice")
@@ -471,6 +479,11 @@ func classify(c core.Case, out []string) []string {
 		ls = append(ls, fmt.Sprintf("history:builds=%d", last.Round+1))
 		if last.NewInsideOld {
 			ls = append(ls, "history:new-pattern-inside-old-node")
+		}
+	}
+	for _, l := range c.Lines[1:] {
+		if l == "dumpc" {
+			ls = append(ls, "big:pointer-model-only+dumpc")
 		}
 	}
 	for i := 1; i < len(c.Lines); i++ {
@@ -512,7 +525,7 @@ func classify(c core.Case, out []string) []string {
 			if nonRoot > 0 {
 				ls = append(ls, "dump:fail-to-non-root")
 			}
-			if g, w, _, _ := QueueGrowth(all); g > 0 {
+			if g, w, _, _ := queueGrowthSmall(all); g > 0 {
 				ls = append(ls, "dump:queue-grew")
 				if w > 0 {
 					ls = append(ls, "dump:queue-grew-wrapped")
